@@ -6,7 +6,7 @@
     EVENT_CANCEL never destroys an unfinished body; after the task is dropped none of its bodies
     exists. *)
 From Coq Require Import NArith List Bool Lia Permutation.
-From WB Require Import Async.Host Async.Task Async.TaskSpec Async.TaskLemmas.
+From WB Require Import Async.Host Async.Task Async.TaskSpec Async.TaskLemmas Async.TaskCallback.
 Import ListNotations.
 Local Open Scope N_scope.
 
@@ -35,14 +35,15 @@ Record Ext (t : N) (w w' : world) : Prop := mkExt {
   ex_boxnews : boxnews w' = boxnews w;
   ex_life : forall t', tk_alive (get_task t' w') = tk_alive (get_task t' w)
                        /\ tk_exited (get_task t' w') = tk_exited (get_task t' w);
-  ex_ids : forall t', t' <> t -> task_ids (get_task t' w') = task_ids (get_task t' w)
+  ex_ids : forall t', t' <> t -> task_ids (get_task t' w') = task_ids (get_task t' w);
+  ex_keys : NoDup (map fst (w_tasks w)) -> NoDup (map fst (w_tasks w'))
 }.
 
 Lemma Ext_refl : forall t w, Ext t w w.
 Proof. split; auto. Qed.
 Lemma Ext_trans : forall t a b c, Ext t a b -> Ext t b c -> Ext t a c.
 Proof.
-  intros t a b c [A1 A2 A3 A4 A5] [B1 B2 B3 B4 B5]. split; try congruence.
+  intros t a b c [A1 A2 A3 A4 A5 A6] [B1 B2 B3 B4 B5 B6]. split; try congruence; auto.
   - intros t'. destruct (A4 t'), (B4 t'). split; congruence.
   - intros t' NE. rewrite B5, A5; auto.
 Qed.
@@ -54,6 +55,7 @@ Proof.
   - now apply Frame_boxnews.
   - intros t'. split; [now apply fr_alive|now apply fr_exited].
   - intros t' _. now apply fr_ids.
+  - now apply fr_keys.
 Qed.
 
 (** A task that does not exist owns no body future. *)
@@ -125,6 +127,12 @@ Proof. auto. Qed.
 
 (** Ext of the two updates of a spawn *)
 Lemma Ext_set_spawned_created : forall t s c w, Ext t w (set_spawned s (set_created c w)).
+Proof. intros. split; auto. Qed.
+
+(** An observation of the context slot moves nothing. *)
+Lemma LinH_ctx_observe : forall hs w, LinH hs w -> LinH hs (ctx_observe w).
+Proof. intros hs w L. exact L. Qed.
+Lemma Ext_ctx_observe : forall t w, Ext t w (ctx_observe w).
 Proof. intros. split; auto. Qed.
 
 (** ** Bodies *)
@@ -211,8 +219,7 @@ Proof.
       * eapply body_res_frame; [exact F2|]. apply IH. eapply Frame_LinH; eauto.
       * apply body_res_stop; auto.
     + (* SCtx *)
-      assert (F : Frame w (ctx_observe w)) by fr_auto.
-      eapply body_res_frame; [exact F|]. apply IH. eapply Frame_LinH; eauto.
+      eapply body_res_ext; [apply Ext_ctx_observe|reflexivity|]. apply IH. now apply LinH_ctx_observe.
 Qed.
 
 Lemma L_poll_body : forall e t wr bd w hs,
@@ -321,6 +328,7 @@ Proof.
     apply N.eqb_eq in E. subst. auto.
   - intros t' NE. rewrite get_put. destruct (N.eqb t t') eqn:E; auto.
     apply N.eqb_eq in E. congruence.
+  - intros. unfold put_task. cbn [w_tasks set_tasks]. now apply tset_keys_nodup.
 Qed.
 
 Lemma find_body_id : forall b l bd, find_body b l = Some bd -> b_id bd = b.
@@ -449,7 +457,7 @@ Qed.
 
 Lemma Ext_drain : forall t f w, Ext t w (set_spawned [] (put_fu t f w)).
 Proof.
-  intros. eapply Ext_trans; [apply Ext_put_fu|]. split; intros; try split; reflexivity.
+  intros. eapply Ext_trans; [apply Ext_put_fu|]. split; intros; try split; try reflexivity. assumption.
 Qed.
 
 Lemma L_tasks_poll_spawn : forall e t fuel hs w,
@@ -502,4 +510,187 @@ Qed.
 Lemma L_tasks_poll : forall e t hs w, LinH hs w -> lin_res t hs w (fst (tasks_poll e t w)).
 Proof.
   intros. unfold tasks_poll. destruct (cf_spawn (e_cfg e)); [now apply L_tasks_poll_spawn|now apply L_tasks_poll_single].
+Qed.
+
+(** ** The callback loop and the callback *)
+Lemma L_cb_loop : forall e t fuel hs w,
+  LinH hs w -> lin_res t hs w (fst (cb_loop fuel e t w)).
+Proof.
+  induction fuel as [|fuel IH]; intros hs w L; cbn [cb_loop].
+  - cbn. apply lin_res_of_frame; auto with fr.
+  - set (w0 := upd_task t (tk_with_sleep 0) w).
+    assert (F0 : Frame w w0) by (unfold w0; fr_auto).
+    pose proof (L_tasks_poll e t hs w0 (Frame_LinH _ _ _ F0 L)) as [L1 X1].
+    destruct (tasks_poll e t w0) as [w1 rdy]. cbn [fst] in *.
+    assert (X : Ext t w w1) by (eapply Ext_trans; [apply Frame_Ext; exact F0|exact X1]).
+    assert (K : forall w', Frame w1 w' -> lin_res t hs w w').
+    { intros w' F. split; [eapply Frame_LinH; eauto|eapply Ext_trans; [exact X|now apply Frame_Ext]]. }
+    assert (KR : forall w', Frame w1 w' -> lin_res t hs w (fst (cb_loop fuel e t w'))).
+    { intros w' F. eapply lin_res_ext; [eapply Ext_trans; [exact X|apply Frame_Ext; exact F]|].
+      apply IH. eapply Frame_LinH; eauto. }
+    repeat match goal with
+    | |- lin_res _ _ _ (fst (cb_loop _ _ _ _)) => apply KR; fr_auto
+    | |- lin_res _ _ _ (fst (wait_code _ _)) => apply K; fr_auto
+    | |- lin_res _ _ _ (fst (_, _)) => cbn [fst]; apply K; fr_auto
+    | |- lin_res _ _ _ (fst (match ?c with _ => _ end)) => destruct c eqn:?
+    end.
+Qed.
+
+Lemma L_task_cb : forall e t e0 e1 e2 hs w,
+  LinH hs w -> lin_res t hs w (fst (task_cb e t e0 e1 e2 w)).
+Proof.
+  intros e t e0 e1 e2 hs w L. unfold task_cb.
+  destruct (N.eqb e0 6); [cbn; split; auto; apply Ext_refl|].
+  destruct (6 <? e0); [cbn; apply lin_res_of_frame; auto with fr|].
+  match goal with |- context [failed ?x] => set (wa := x) end.
+  assert (FA : Frame w wa) by (unfold wa; fr_auto).
+  destruct (failed wa); [cbn; now apply lin_res_of_frame|].
+  pose proof (L_cb_loop e t (e_fuel e) hs wa (Frame_LinH _ _ _ FA L)) as [L1 X1].
+  destruct (cb_loop (e_fuel e) e t wa) as [w2 c]. cbn [fst] in *.
+  split.
+  - eapply Frame_LinH; [|exact L1]. auto with fr.
+  - eapply Ext_trans; [apply Frame_Ext; exact FA|]. eapply Ext_trans; [exact X1|]. apply Frame_Ext. auto with fr.
+Qed.
+
+(** ** Destruction of the task *)
+Lemma body_ids_task_bodies : forall e tk, body_ids (task_bodies e tk) = task_ids tk.
+Proof. intros. unfold task_bodies, task_ids, root_list, body_ids. now rewrite map_app. Qed.
+
+Lemma L_drop_bodies : forall e t bodies hs w,
+  LinH (body_ids bodies ++ hs) w ->
+  LinH hs (fold_left (fun w bd => body_drop e t bd w) bodies w).
+Proof.
+  induction bodies as [|bd r IH]; intros hs w L; cbn [fold_left]; auto.
+  apply IH. cbn in L. now apply L_body_drop.
+Qed.
+
+Definition same_but (t : N) (w w' : world) : Prop :=
+  forall t', t' <> t ->
+    task_ids (get_task t' w') = task_ids (get_task t' w)
+    /\ tk_alive (get_task t' w') = tk_alive (get_task t' w)
+    /\ tk_exited (get_task t' w') = tk_exited (get_task t' w).
+
+Lemma Frame_same_but : forall t w w', Frame w w' -> same_but t w w'.
+Proof. intros t w w' F t' _. split; [now apply fr_ids|split; [now apply fr_alive|now apply fr_exited]]. Qed.
+
+Lemma same_but_trans : forall t a b c, same_but t a b -> same_but t b c -> same_but t a c.
+Proof.
+  intros t a b c A B t' NE. destruct (A t' NE) as (?&?&?), (B t' NE) as (?&?&?). split; [congruence|split; congruence].
+Qed.
+
+Lemma same_but_put : forall t x w, same_but t w (put_task t x w).
+Proof. intros t x w t' NE. rewrite get_put_other; auto. Qed.
+
+Lemma Frame_drop_bodies : forall e t bodies w,
+  same_but t w (fold_left (fun w bd => body_drop e t bd w) bodies w)
+  /\ task_ids (get_task t (fold_left (fun w bd => body_drop e t bd w) bodies w)) = task_ids (get_task t w)
+  /\ boxfrees (fold_left (fun w bd => body_drop e t bd w) bodies w) = boxfrees w
+  /\ boxnews (fold_left (fun w bd => body_drop e t bd w) bodies w) = boxnews w
+  /\ (NoDup (map fst (w_tasks w)) -> NoDup (map fst (w_tasks (fold_left (fun w bd => body_drop e t bd w) bodies w)))).
+Proof.
+  intros e t bodies. induction bodies as [|bd r IH]; intros w; cbn [fold_left].
+  - split; [|split; [|split; [|split]]]; auto. intros t' _. auto.
+  - destruct (IH (body_drop e t bd w)) as (A & B & C & D & KK).
+    assert (F : exists x, Frame w x /\ body_drop e t bd w = emit (VEnd (b_id bd) false) x).
+    { unfold body_drop. eexists. split; [|reflexivity]. fr_auto. }
+    destruct F as (x & F & E).
+    assert (G : forall t', get_task t' (body_drop e t bd w) = get_task t' x) by (intros; now rewrite E).
+    split; [|split; [|split; [|split]]].
+    5:{ intros ND. apply KK. rewrite E. change (w_tasks (emit ?a x)) with (w_tasks x). now apply (fr_keys _ _ F). }
+    + eapply same_but_trans; [|exact A]. intros t' NE. rewrite !G.
+      split; [now apply fr_ids|split; [now apply fr_alive|now apply fr_exited]].
+    + rewrite B, G. now apply fr_ids.
+    + rewrite C, E. unfold boxfrees. cbn. fold (boxfrees x). now apply Frame_boxfrees.
+    + rewrite D, E. unfold boxnews. cbn. fold (boxnews x). now apply Frame_boxnews.
+Qed.
+
+Record DropRes (e : env) (t : N) (hs : list N) (w w' : world) : Prop := mkDropRes {
+  dr_lin : LinH hs w';
+  dr_alive : tk_alive (get_task t w') = false;
+  dr_exited : tk_exited (get_task t w') = true;
+  dr_ids : task_ids (get_task t w') = [];
+  dr_others : same_but t w w';
+  dr_boxfrees : boxfrees w' = boxfrees w;
+  dr_boxnews : boxnews w' = boxnews w;
+  dr_udrops : task_ids (get_task t w) = [] -> udrops w' = udrops w;
+  dr_keys : NoDup (map fst (w_tasks w)) -> NoDup (map fst (w_tasks w'))
+}.
+
+Lemma L_task_drop : forall e t hs w, LinH hs w -> DropRes e t hs w (task_drop e t w).
+Proof.
+  intros e t hs w L. unfold task_drop. cbv zeta.
+  set (w1 := cancel_itw_read e t w).
+  assert (F1 : Frame w w1) by (unfold w1; fr_auto).
+  assert (L1 : LinH hs w1) by (eapply Frame_LinH; eauto).
+  set (bodies := task_bodies e (get_task t w1)).
+  assert (BI : body_ids bodies = task_ids (get_task t w)).
+  { unfold bodies. rewrite body_ids_task_bodies. now apply fr_ids. }
+  set (w2 := if is_nil bodies then w1 else _).
+  assert (R2 : LinH hs w2 /\ same_but t w w2 /\ task_ids (get_task t w2) = []
+               /\ boxfrees w2 = boxfrees w /\ boxnews w2 = boxnews w
+               /\ (task_ids (get_task t w) = [] -> udrops w2 = udrops w)
+               /\ (NoDup (map fst (w_tasks w)) -> NoDup (map fst (w_tasks w2)))).
+  { unfold w2. destruct (is_nil bodies) eqn:NB.
+    - apply is_nil_true in NB. rewrite NB in BI. cbn in BI.
+      split; [|split; [|split; [|split; [|split; [|split]]]]]; auto.
+      all: try (now apply (fr_keys _ _ F1)).
+      + now apply Frame_same_but.
+      + rewrite (fr_ids _ _ F1). auto.
+      + now apply Frame_boxfrees.
+      + now apply Frame_boxnews.
+      + intros _. now apply Frame_udrops.
+    - set (wc := set_cur (Some t) w1).
+      set (wd := upd_task t (fun tk => tk_with_root None (tk_with_fu fu_dead tk)) wc).
+      assert (Ld : LinH (body_ids bodies ++ hs) wd).
+      { unfold wd, upd_task. eapply LinH_move; [|exact L1].
+        change (get_task t wc) with (get_task t w1).
+        unfold bodies. rewrite body_ids_task_bodies. cbn. rewrite app_nil_r.
+        apply Permutation_app_comm. }
+      assert (Ids : task_ids (get_task t wd) = []).
+      { unfold wd. rewrite get_upd, N.eqb_refl. reflexivity. }
+      destruct (Frame_drop_bodies e t bodies wd) as (A & B & C & D & KK).
+      split; [|split; [|split; [|split; [|split; [|split]]]]].
+      7:{ intros ND. change (w_tasks (set_cur (w_cur w1) ?x)) with (w_tasks x). apply KK.
+          unfold wd, upd_task, put_task. cbn [w_tasks set_tasks]. apply tset_keys_nodup.
+          change (w_tasks wc) with (w_tasks w1). now apply (fr_keys _ _ F1). }
+      + eapply Frame_LinH; [|apply L_drop_bodies; exact Ld]. auto with fr.
+      + intros t' NE. change (get_task t' (set_cur (w_cur w1) ?x)) with (get_task t' x).
+        destruct (A t' NE) as (A1 & A2 & A3). rewrite A1, A2, A3.
+        assert (G : get_task t' wd = get_task t' w1).
+        { unfold wd, upd_task. rewrite get_put_other by auto. reflexivity. }
+        rewrite G. split; [now apply fr_ids|split; [now apply fr_alive|now apply fr_exited]].
+      + change (get_task t (set_cur (w_cur w1) ?x)) with (get_task t x). now rewrite B.
+      + change (boxfrees (set_cur (w_cur w1) ?x)) with (boxfrees x). rewrite C.
+        change (boxfrees wd) with (boxfrees w1). now apply Frame_boxfrees.
+      + change (boxnews (set_cur (w_cur w1) ?x)) with (boxnews x). rewrite D.
+        change (boxnews wd) with (boxnews w1). now apply Frame_boxnews.
+      + intros Z. rewrite Z in BI. destruct bodies; [discriminate|discriminate]. }
+  destruct R2 as (L2 & S2 & I2 & BF2 & BN2 & U2 & K2).
+  set (w3 := upd_task t (fun tk => tk_with_alive false (tk_with_exited true (tk_with_fu fu_dead tk))) w2).
+  assert (RT : root_list (get_task t w2) = []).
+  { unfold task_ids in I2. apply app_eq_nil in I2 as [I2 _]. unfold body_ids in I2. now apply map_eq_nil in I2. }
+  assert (I3 : task_ids (get_task t w3) = []).
+  { unfold w3. rewrite get_upd, N.eqb_refl.
+    change (task_ids (tk_with_alive false (tk_with_exited true (tk_with_fu fu_dead (get_task t w2)))))
+      with (body_ids (root_list (get_task t w2)) ++ body_ids []).
+    now rewrite RT. }
+  assert (L3 : LinH hs w3).
+  { unfold w3, upd_task. eapply LinH_move; [|exact L2]. fold (upd_task t (fun tk => tk_with_alive false (tk_with_exited true (tk_with_fu fu_dead tk))) w2).
+    unfold w3 in I3. unfold upd_task in I3. rewrite get_put_same in I3. rewrite I3, I2. reflexivity. }
+  set (w4 := maybe_drop_shared t w3).
+  assert (F4 : Frame w3 w4) by (unfold w4; fr_auto).
+  match goal with |- DropRes _ _ _ _ ?wf => assert (F5 : Frame w4 wf) by fr_auto end.
+  assert (F35 := Frame_trans _ _ _ F4 F5).
+  split.
+  - eapply Frame_LinH; eauto.
+  - rewrite (fr_alive _ _ F35). unfold w3. rewrite get_upd, N.eqb_refl. reflexivity.
+  - rewrite (fr_exited _ _ F35). unfold w3. rewrite get_upd, N.eqb_refl. reflexivity.
+  - rewrite (fr_ids _ _ F35). exact I3.
+  - eapply same_but_trans; [exact S2|]. eapply same_but_trans; [|apply Frame_same_but; exact F35].
+    unfold w3, upd_task. apply same_but_put.
+  - rewrite (Frame_boxfrees _ _ F35). exact BF2.
+  - rewrite (Frame_boxnews _ _ F35). exact BN2.
+  - intros Z. rewrite (Frame_udrops _ _ F35). change (udrops w3) with (udrops w2). auto.
+  - intros ND. apply (fr_keys _ _ F35). unfold w3, upd_task, put_task. cbn [w_tasks set_tasks].
+    apply tset_keys_nodup. auto.
 Qed.
